@@ -172,8 +172,11 @@ def run_stream_retry(case):
     fj = rng.choice(nz)
     fk = rng.choice(sorted({0, sizes[fj] // 2, sizes[fj] - 1}))
     where = rng.choice(['upstream', 'downstream'])
-    cfg = {'sizes': sizes, 'fails_once_at': [fj, fk], 'failing_step': where}
-    state = {'armed': True}
+    # the retry: the same Flow object again, or a FRESH flow while the failed attempt (its exception, hence its suspended
+    # generators) is let go of only during the retry's saving
+    retry_with = boot.rng(case['seed'], 'C08', 'stream_retry/with', case['idx']).choice(['same_flow', 'fresh_flow_old_attempt_released_meanwhile'])
+    cfg = {'sizes': sizes, 'fails_once_at': [fj, fk], 'failing_step': where, 'retry': retry_with}
+    state = {'armed': True, 'held': None}
 
     def src(package):
         for i in range(len(tables)):
@@ -194,10 +197,25 @@ def run_stream_retry(case):
                     yield row
             yield it()
 
-    def build(path, failing):
+    def release_old(package):
+        # the caller lets go of the failed attempt's exception while this run is streaming
+        yield package.pkg
+        for res in package:
+            def it(res=res):
+                for n, row in enumerate(res):
+                    if n == 0 and state['held'] is not None:
+                        import gc
+                        state['held'] = None
+                        gc.collect()
+                    yield row
+            yield it()
+
+    def build(path, failing, releasing=False):
         mid = [d.stream(path)]
         if failing:
             mid = [failing_once] + mid if where == 'upstream' else mid + [failing_once]
+        if releasing:
+            mid = mid + [release_old]
         return d.Flow(src, *mid, d.add_field('z', 'integer', 9))
     counters = {'crash_points_executed': 1, 'recoveries_compared': 0, 'unshimmed_events': 0,
                 'complete_checkpoints_found': 0, 'partial_files_found': 0}
@@ -210,8 +228,10 @@ def run_stream_retry(case):
     try:
         with boot.quiet():
             flow.process()
-    except Exception:
+    except Exception as e0:
         first_failed = True
+        if retry_with != 'same_flow':
+            state['held'] = e0
     if not first_failed:
         return dict(nontrivial=False, violations=[], cov={'crash_event_kind': {}, 'mode': {}}, counters=counters,
                     inconclusive='the failing first attempt did not fail')
@@ -219,6 +239,8 @@ def run_stream_retry(case):
         viol.append({'kind': 'checkpoint_committed_on_failure', 'mech': 'stream_path/committed_on_failure', 'config': cfg,
                      'msg': '%r: the failed attempt left a committed stream file' % cfg})
     err = None
+    if retry_with != 'same_flow':
+        flow = build('retry/s.ndjson', False, releasing=True)
     try:
         with boot.quiet():
             flow.process()
@@ -236,7 +258,7 @@ def run_stream_retry(case):
                          'msg': '%r: after the retry the committed stream file differs from the stream of a clean run: '
                          '%d vs %d bytes, complete=%s %s' % (cfg, len(got or ''), len(want), complete, problems[:2])})
     return dict(nontrivial=True, violations=viol, counters=counters,
-                cov={'crash_event_kind': {}, 'mode': {'stream_path_retry_same_flow/%s' % where: 1}}, sample={'config': cfg})
+                cov={'crash_event_kind': {}, 'mode': {'stream_path_retry_%s/%s' % (retry_with, where): 1}}, sample={'config': cfg})
 
 
 def run_case(case):
